@@ -720,7 +720,7 @@ PROFILES = [{"catch": 1, "scc": 1}, {"catch": 2, "scc": 0.3}, {"catch": 0.5, "sc
 
 
 def gen_cases(rng, tier, seed):
-    n = 700 if tier == "quick" else 9000
+    n = 700 if tier == "quick" else 6000
     cases = []
     for k in range(n):
         cid = "c%d_%d" % (seed, k)
